@@ -249,10 +249,17 @@ def run_case(case):
         viol.append(dict(sig='duplicate-accepted:%s' % case['op'], msg='potable, %s: exit status %r, %d bytes written' % (what, res.status, len(res.out_bytes or '')), detail={'text': text}))
     elif res.out_bytes:
         viol.append(dict(sig='duplicate-rejected-but-wrote', msg='potable, %s: configuration error but %d bytes in the output file' % (what, len(res.out_bytes)), detail={}))
+    # the same through a species filter that keeps every species of the model (the duplicate is still a duplicate)
+    for fargs in (['--exclude-species', 'Zz'], ['--exclude-species']):
+        res = R.potable(text, args=fargs)
+        if res.exc is not None:
+            viol.append(dict(sig='duplicate-internal-exception:%s:%s' % (case['op'], type(res.exc).__name__), msg='potable %s, %s: %s: %s' % (' '.join(fargs), what, type(res.exc).__name__, res.exc), detail={'text': text}))
+        elif not res.config_error:
+            viol.append(dict(sig='duplicate-accepted-through-filter:%s' % case['op'], msg='potable %s, %s: exit status %r, %d bytes written' % (' '.join(fargs), what, res.status, len(res.out_bytes or '')), detail={'text': text}))
     # one signature per cause is enough
     seen, uniq = set(), []
     for v in viol:
         if v['sig'] not in seen:
             seen.add(v['sig'])
             uniq.append(v)
-    return dict(outcome='rejected:%s' % case['op'].split(':')[0] if not viol else 'violation', nontrivial=True, evals=2, violations=uniq)
+    return dict(outcome='rejected:%s' % case['op'].split(':')[0] if not viol else 'violation', nontrivial=True, evals=4, violations=uniq)
